@@ -199,6 +199,8 @@ class SlicesSplit(RewriteRuleClassBase):
             begin1.const_value.numpy().tolist(),
             end1.const_value.numpy().tolist(),
         )
+        if len(e0) != 1 or len(b1) != 1 or len(e1) != 1:
+            return check_result.fail("Begin or end do not have exactly one element.")
         if e0[0] != b1[0]:
             return check_result.fail("End0 is not equal to Begin1.")
         shape = x.shape
